@@ -85,6 +85,16 @@ CHECKS = {
             "Trusted: harness recording; the virtual clock hook H2/H3 for timeouts. 'Same settings' means same flags, "
             "timeout and the same sequence of scanner-level external definitions.",
             "DESIGN.md section 2, C10"),
+    "C13": ("fault_enumeration",
+            "differential oracle between entry points; exhaustive enumeration of not-ready schedules (fault points = iterator calls)",
+            "The same bytes are scanned through all eight public entry points (user iterator blocks are exact-size "
+            "private heap copies, so ASan sees any read across a block or buffer end) and traces must be identical; for "
+            "partitions into at most 4 blocks every subset of scanning-phase iterator calls answers not-ready and the "
+            "repeated scan must end with exactly the uninterrupted trace; not-ready during evaluation-phase "
+            "re-iteration is enumerated call by call.",
+            "Trusted: harness iterator implementing the documented protocol. Known finding: not-ready during rule "
+            "evaluation is ignored by the engine.",
+            "DESIGN.md section 2, C13"),
 }
 
 NOT_YET = "check not built yet in this round (planned in DESIGN.md section 2); nothing is claimed for it"
